@@ -23,7 +23,18 @@ pub fn gen_doc(rng: &mut Rng, tier: Tier) -> Vec<u8> {
     if rng.bool() {
         d.push_str("<html><body><p>intro</p>");
     }
-    match rng.below(9) {
+    match rng.below(11) {
+        9 | 10 => {
+            // several buffering episodes: complete long tags (each straddles write boundaries and is
+            // then consumed), growing, followed by an unterminated one
+            let k = rng.range(2, 5);
+            let mut len = rng.range(4, 40);
+            for i in 0..k {
+                d.push_str(&format!("<p id=\"{}\">t{i}</p>", rep("v", len)));
+                len += rng.range(1, 60 * scale);
+            }
+            d.push_str(&format!("<a href=\"{}", rep("u", len + rng.range(0, 200 * scale))));
+        }
         0 => d.push_str(&format!("<div class=\"{}", rep("a", n))), // unterminated attribute value
         1 => d.push_str(&format!("<!-- {}", rep("c ", n))),        // unterminated comment
         2 => d.push_str(&format!("<{}", rep("n", n))),             // very long tag name
